@@ -157,6 +157,11 @@ def _rand_merge(rng, rand_partition_desc):
          "rindex": rng.choice(("range", "range", "sorted", "dups", "unsorted"))}
     if rng.random() < 0.04 and not nakeys:
         c["rpandas"] = True       # right operand is a pandas frame (documented)
+    elif form in ("on", "on2", "lr", "lr2") and rng.random() < 0.2:
+        # second join on the same key: the planner may reuse the partitioning of the first one
+        n3 = rng.randint(2, 30)
+        c["chain"] = {"seed": rng.randrange(2 ** 31), "n": n3, "how": rng.choice(("inner", "left", "right", "outer")),
+                      "part": rand_partition_desc(rng, n3, allow_unknown=True), "shuffle": rng.choice(SHUFFLE)}
     return c
 
 
@@ -342,6 +347,21 @@ def _merge_frames(case):
     return L, R, kw
 
 
+def _chain_frame(case):
+    import numpy as np
+    import pandas as pd
+
+    ch = case["chain"]
+    r = np.random.default_rng(ch["seed"])
+    n = ch["n"]
+    codes = r.integers(0, case["universe"], n) + r.integers(0, 2)
+    kd = case["kd"]
+    data = {"k": _key_values(codes, "int" if kd == "floatint" else ("float" if kd == "intfloat" else kd), "l",
+                             np.zeros(n, dtype=bool), case["universe"], case["shift"]),
+            "z": np.arange(n, dtype="int64") * 10}
+    return pd.DataFrame(data)
+
+
 def _sortcodes(idx):
     """sortable codes of an index (NA last)."""
     import numpy as np
@@ -501,6 +521,7 @@ def _merge_features(case, L, R, lddf, rddf, plan, kw):
     f["empty-partition-l"] = _has_empty_partition(case["lpart"], len(L), lddf)
     f["empty-partition-r"] = _has_empty_partition(case["rpart"], len(R), rddf) if hasattr(rddf, "npartitions") else False
     f["right-is-pandas"] = isinstance(rddf, pd.DataFrame)
+    f["chain"] = case.get("chain", {}).get("how")
     return f
 
 
@@ -527,7 +548,9 @@ def _rkeys(kw, L, R):
 def _merge_pred(case, f):
     how, form, kd = case["how"], case["form"], case["kd"]
 
-    def pred(symptom):
+    def pred(symptom, exc=None):
+        if exc is not None and form in ("ci", "ic") and kd == "dt" and "Cannot cast DatetimeIndex" in str(exc):
+            return "column-index&datetime-key&how-keeps-index-side-rows"
         nl, nr, npart = f.get("nl", 0), f.get("nr", 0), case["npart"]
         bside = "left" if nl < nr else "right"
         flipped = False
@@ -535,7 +558,8 @@ def _merge_pred(case, f):
             # Merge._lower repartitions the non-broadcast side to ``npartitions``; BroadcastJoin derives the side again
             bside2 = ("left" if nl < npart else "right") if bside == "left" else ("left" if npart < nr else "right")
             flipped, bside = bside2 != bside, bside2
-        other_on_index = form in ("ii", "oi") or (form == "ic" and bside == "right") or (form == "ci" and bside == "left")
+        # (``on=<index name>`` reaches the split as a name and is resolved there; left_index/right_index arrive as None)
+        other_on_index = form == "ii" or (form == "ic" and bside == "right") or (form == "ci" and bside == "left")
         if how == "leftsemi" and form == "ic":
             return "leftsemi&left_index"
         if f.get("right-is-pandas") and form == "ic":
@@ -550,6 +574,8 @@ def _merge_pred(case, f):
             return "column-index&datetime-key&how-keeps-index-side-rows"
         if form in ("ii", "ci", "ic", "oi") and kd == "cat":
             return "categorical-index-key"
+        if case.get("chain") and f.get("broadcast-join"):
+            return "broadcast-join-then-merge-on-same-key"
         return "other"
     return pred
 
@@ -576,6 +602,9 @@ def _run_merge(case, ctx):
             expected = pd.merge(L, R, **kw)
         else:
             expected = L.merge(R, **kw)
+        if case.get("chain"):
+            R2 = _chain_frame(case)
+            expected = expected.merge(R2, on="k", how=case["chain"]["how"])
     except Exception as ex:  # noqa: BLE001
         ctx.reject("pandas: %s: %s" % (type(ex).__name__, ex))
         return
@@ -603,6 +632,10 @@ def _run_merge(case, ctx):
             if case["broadcast"] is not None:
                 extra["broadcast"] = case["broadcast"]
             coll = dd.merge(lddf, rddf, **dkw, **extra) if api == "dd.merge" else lddf.merge(rddf, **dkw, **extra)
+        if case.get("chain"):
+            ch = case["chain"]
+            coll = coll.merge(frames.partition(R2, ch["part"]), on="k", how=ch["how"],
+                              **({"shuffle_method": ch["shuffle"]} if ch["shuffle"] else {}))
         plan = _plan(coll)
         result = coll.compute(scheduler="sync")
     except NotImplementedError as ex:
@@ -610,7 +643,7 @@ def _run_merge(case, ctx):
         return
     except Exception as ex:  # noqa: BLE001
         f = _merge_features(case, L, R, lddf, rddf, plan, kw)
-        ctx.exception(_root(ex), prefix="merge:%s" % _merge_pred(case, f)("exception"), features=f, kw=repr(kw), extra=extra)
+        ctx.exception(_root(ex), prefix="merge:%s" % _merge_pred(case, f)("exception", _root(ex)), features=f, kw=repr(kw), extra=extra)
         return
     f = _merge_features(case, L, R, lddf, rddf, plan, kw)
     both_index = bool(kw.get("left_index") and kw.get("right_index")) or form == "oi"
@@ -637,6 +670,8 @@ def _run_merge(case, ctx):
         ctx.count("merge_int_float_keys")
     if case["indicator"]:
         ctx.count("merge_indicator")
+    if case.get("chain"):
+        ctx.count("merge_chained")
     ctx.distinct("merge_plans", plan)
     ctx.distinct("merge_programs", (form, how, case["kd"], api, case["suffixes"], bool(case["indicator"]),
                                     case["broadcast"], case["shuffle"], case["npart"]))
